@@ -558,8 +558,10 @@ fn run_sync_mt(tape: &mut Tape, nthreads: usize, maxlen: usize, verbose: bool) -
         chosen.push(progs[c as usize].clone());
     }
     let bound = choose_free(3) as usize; // 0 (rendezvous), 1, 2
+    // the loop side keeps a sender alive: no Closed, and a stranded message stays stranded
+    let main_keeps = choose_free(2) == 1;
     out.decoded.push(format!(
-        "sync-programs {:?} bound {bound}",
+        "sync-programs {:?} bound {bound} main-keeps-sender {main_keeps}",
         chosen.iter().map(|p| String::from_utf8_lossy(p).to_string()).collect::<Vec<_>>()
     ));
     let shared = Arc::new(ChanShared::default());
@@ -619,7 +621,10 @@ fn run_sync_mt(tape: &mut Tape, nthreads: usize, maxlen: usize, verbose: bool) -
             drop(handles);
         }));
     }
-    drop(tx);
+    let mut main_tx = Some(tx);
+    if !main_keeps {
+        main_tx.take();
+    }
     let horizon = 4 * total_ops as u32 + nthreads as u32 + 8;
     let mut n = 0u32;
     let mut dispatches = 0u32;
@@ -709,14 +714,24 @@ fn run_sync_mt(tape: &mut Tape, nthreads: usize, maxlen: usize, verbose: bool) -
                     out.violations.push(viol(&["C04"], "per-sender-order", &[], format!("sender {t} sent {want:?}, delivered {got:?}")));
                 }
             }
-            out.clauses.push("channel-closed");
-            if closed.len() != 1 {
-                out.violations.push(viol(&["C04"], "closed-count", &[("count", closed.len().to_string())],
-                    format!("Closed delivered {} times after every sender was dropped (loop blocked={blocked:?})", closed.len())));
-            } else if delivered.iter().any(|d| d.1 > closed[0]) {
-                out.violations.push(viol(&["C04"], "message-after-closed", &[], "a message was delivered after Closed".into()));
+            if main_keeps {
+                if !closed.is_empty() {
+                    out.violations.push(viol(&["C04"], "closed-with-live-sender", &[], "Closed delivered although a sender is alive".into()));
+                }
+            } else {
+                out.clauses.push("channel-closed");
+                if closed.len() != 1 {
+                    out.violations.push(viol(&["C04"], "closed-count", &[("count", closed.len().to_string())],
+                        format!("Closed delivered {} times after every sender was dropped (loop blocked={blocked:?})", closed.len())));
+                } else if delivered.iter().any(|d| d.1 > closed[0]) {
+                    out.violations.push(viol(&["C04"], "message-after-closed", &[], "a message was delivered after Closed".into()));
+                }
             }
         }
+    }
+    drop(main_tx);
+    if trace.iter().any(|e| e.1 == "held-back") {
+        out.clauses.push("sluggish-sender");
     }
     let mut h = std::collections::hash_map::DefaultHasher::new();
     (delivered.iter().map(|d| d.0).collect::<Vec<_>>(), closed.len(), parked > 0, bound).hash(&mut h);
